@@ -20,7 +20,7 @@ inductive ValidPath : JV N → List (JV N) → Prop
 /-! ### steps -/
 
 theorem idxOf_ofNat (i : Nat) : idxOf (NumOps.ofInt (i : Int) : N) = some (some (i : Int)) := by
-  simp [idxOf, LawfulNum.isNan_ofInt, LawfulNum.floor_ofInt, LawfulNum.toInt_ofInt]
+  simp [idxOf, LawfulNum.isNan_ofInt, LawfulNum.isInf_ofInt, LawfulNum.floor_ofInt, LawfulNum.toInt_ofInt]
 
 theorem resolveIdx_ofNat (i len : Nat) : resolveIdx (i : Int) len = some i := by
   simp [resolveIdx]
